@@ -41,6 +41,11 @@ impl<'a> TokenBasedLuaGenerator<'a> {
             self.uncomment();
         }
 
+        if is_comment && !self.currently_commenting && self.output.ends_with('-') {
+            // a minus sign directly followed by `--` would start the comment one character early
+            self.output.push(' ');
+        }
+
         self.push_str(content);
 
         match trivia.kind() {
